@@ -267,8 +267,8 @@ end
 /-! ### the skeleton the model stands for -/
 
 open Stmt in
-/-- clone, then clear the clone, then match against the clone -/
-def prologue : Stmt := seq (clone .call) (seq (clear .arm) (matchPat .arm))
+/-- clone, then clear the clone, then match against the clone, then `rest` (a block is a right-nested `seq`) -/
+def withPrologue (rest : Stmt) : Stmt := seq (clone .call) (seq (clear .arm) (seq (matchPat .arm) rest))
 
 open Stmt in
 /-- apply, return the output if there is one, else note the transition and leave the loop; nothing is written back -/
@@ -279,11 +279,11 @@ def guardBody : Stmt :=
   seq (guardCond true .arm .error) (seq (ite (.not (.var .passes)) cont skip) (taken .guard))
 
 open Stmt in
-def transitionArm : Stmt := seq prologue (ite (.var .matched) (taken .arm) skip)
+def transitionArm : Stmt := withPrologue (ite (.var .matched) (taken .arm) skip)
 
 open Stmt in
 def guardArm : Stmt :=
-  seq prologue (seq (ite (.not (.var .matched)) cont skip) (seq (forGuards guardBody) (ite (.var .transitioned) brk skip)))
+  withPrologue (seq (ite (.not (.var .matched)) cont skip) (seq (forGuards guardBody) (ite (.var .transitioned) brk skip)))
 
 open Stmt in
 def stepBody : Stmt :=
